@@ -470,7 +470,8 @@ func (rl *Shell) inferNextHistory() {
 // If the cursor is not at the beginning of the buffer, go to it.
 // Otherwise, go to the beginning of history.
 func (rl *Shell) beginningOfBufferOrHistory() {
-	if rl.cursor.Pos() > 0 {
+	// As the motion of a Vi operator, this only moves in the buffer.
+	if rl.cursor.Pos() > 0 || rl.Keymap.Local() == keymap.ViOpp {
 		rl.History.SkipSave()
 		rl.cursor.Set(0)
 
@@ -484,7 +485,8 @@ func (rl *Shell) beginningOfBufferOrHistory() {
 // If the cursor is not at the end of the buffer, go to it.
 // Otherwise, go to the end of history.
 func (rl *Shell) endOfBufferOrHistory() {
-	if rl.cursor.Pos() < rl.line.Len()-1 {
+	// As the motion of a Vi operator, this only moves in the buffer.
+	if rl.cursor.Pos() < rl.line.Len()-1 || rl.Keymap.Local() == keymap.ViOpp {
 		rl.History.SkipSave()
 		rl.cursor.Set(rl.line.Len())
 
